@@ -97,6 +97,8 @@ def jobs(tier, seed):
         for perm in itertools.permutations(range(T)):
             for kind in ("classification", "regression"):
                 js.append({"id": f"eg-{kind}-T{T}-{''.join(map(str, perm))}", "kind": "eg", "mode": kind, "T": T, "perm": list(perm), "n": nq})
+    for T in (1, 2):
+        js.append({"id": f"eg-inplace-T{T}", "kind": "eginplace", "T": T})
     ops = list(itertools.product("><", repeat=4))
     if tier == "quick":
         ops = [o for o in ops if o in ((">", ">", ">", ">"), ("<", "<", "<", "<"), (">", "<", ">", "<"), ("<", ">", ">", ">"), (">", ">", "<", "<"), ("<", "<", ">", "<"))]
@@ -124,6 +126,8 @@ def run_job(job, deadline):
     acc = JobAcc(job)
     if job["kind"] == "eg":
         _eg(acc, job, deadline)
+    elif job["kind"] == "eginplace":
+        _eg_inplace(acc, job, deadline)
     elif job["kind"] == "thr":
         _thr(acc, job, deadline)
     else:
@@ -188,6 +192,58 @@ def _eg(acc, job, deadline):
         acc.sample({"job": job["id"], "weights_index": perm})
 
     acc.explore(run, on_ok, deadline=deadline, max_paths=4000)
+
+
+class _RowModel:
+    """stored classifier whose prediction depends on the CONTENT of X (row id in column 0)"""
+
+    def __init__(self, table):
+        self.table = table
+
+    def predict(self, X):
+        ids = [int(v) for v in np.asarray(X)[:, 0]]
+        return np.array([self.table[i] for i in ids], dtype=object if any(core.is_sym(v) for v in self.table) else float)
+
+
+def _eg_inplace(acc, job, deadline):
+    """history: query X, modify the SAME X object in place, query again - the reported pmf must be the mixture for the CURRENT contents.
+    The stored predictors are the real _PredictorAsCallable wrappers (as after a real fit)."""
+    import fairlearn.reductions as red
+    from fairlearn.reductions._exponentiated_gradient._lagrangian import _PredictorAsCallable
+
+    T = job["T"]
+
+    def build(w, tables):
+        eg = red.ExponentiatedGradient(estimator=None, constraints=red.DemographicParity())
+        eg._hs = pd.Series([_PredictorAsCallable(_RowModel(tables[t])) for t in range(T)], dtype=object)
+        eg.weights_ = pd.Series(list(w), index=list(range(T)), dtype=object if any(core.is_sym(x) for x in w) else float)
+        eg.predictors_ = eg._hs
+        eg.best_gap_ = 0.0
+        return eg
+
+    def run():
+        w = [real(f"w{t}", 0, 1) for t in range(T)]
+        core.cur().assume(core.zsum([term(x) for x in w]) == 1)
+        tables = [[integer(f"h{t}_{i}", 0, 1) for i in range(3)] for t in range(T)]
+        eg = build(w, tables)
+        X = np.array([[0], [1]])
+        first = np.asarray(eg._pmf_predict(X), dtype=object)
+        X[0, 0] = 2  # what-if edit of the same object
+        second = np.asarray(eg._pmf_predict(X), dtype=object)
+        fresh = np.asarray(eg._pmf_predict(np.array([[2], [1]])), dtype=object)
+        return w, tables, first, second, fresh
+
+    def on_ok(ctx, out):
+        w, tables, first, second, fresh = out
+        acc.reach(ctx)
+        mix = lambda rid: core.zsum([term(w[t]) * term(tables[t][rid]) for t in range(T)])
+        acc.check_all(ctx, [
+            ("pmf_is_weights_mixture_by_label", z3.And(term(first[0, 1]) == mix(0), term(first[1, 1]) == mix(1)), "eg:inplace:first"),
+            ("pmf_follows_current_contents_of_X", z3.And(term(second[0, 1]) == mix(2), term(second[1, 1]) == mix(1)), "eg:inplace:second"),
+            ("pmf_same_for_equal_contents", z3.And(term(second[0, 1]) == term(fresh[0, 1]), term(second[1, 1]) == term(fresh[1, 1])), "eg:inplace:copy")])
+        acc.canary(ctx, "canary_inplace", term(second[0, 1]) == mix(2) + 1)
+
+    acc.explore(run, on_ok, deadline=deadline, max_paths=500)
 
 
 def _thr_state(job, mk):
@@ -293,6 +349,30 @@ def replay(cex):
         acc = JobAcc(job)
         _seeds(acc, job)
         return {"reproduced": acc.r["sat"] > 0, "detail": str(acc.r["cex"][:1])}
+    if job["kind"] == "eginplace":
+        import fairlearn.reductions as red
+        from fairlearn.reductions._exponentiated_gradient._lagrangian import _PredictorAsCallable
+
+        T = job["T"]
+        w = [f(f"w{t}") for t in range(T)]
+        tot = sum(w) or 1.0
+        w = [x / tot for x in w]
+        tables = [[float(int(F(mdl.get(f"h{t}_{i}", "0")))) for i in range(3)] for t in range(T)]
+        eg = red.ExponentiatedGradient(estimator=None, constraints=red.DemographicParity())
+        eg._hs = pd.Series([_PredictorAsCallable(_RowModel(tables[t])) for t in range(T)], dtype=object)
+        eg.weights_ = pd.Series(w, index=list(range(T)))
+        eg.predictors_ = eg._hs
+        X = np.array([[0], [1]])
+        first = np.asarray(eg._pmf_predict(X), dtype=float)
+        X[0, 0] = 2
+        second = np.asarray(eg._pmf_predict(X), dtype=float)
+        mix = lambda rid: sum(w[t] * tables[t][rid] for t in range(T))
+        bad = []
+        if abs(second[0, 1] - mix(2)) > 1e-9:
+            bad.append(f"after editing X in place the reported P1 of row 0 is {second[0, 1]} but the mixture for its current contents is {mix(2)} (stale {mix(0)})")
+        if abs(first[0, 1] - mix(0)) > 1e-9:
+            bad.append("first query wrong")
+        return {"reproduced": bool(bad), "detail": "; ".join(bad) + f" | weights {w} tables {tables}"}
     if job["kind"] == "eg":
         mode, T, perm, n = job["mode"], job["T"], job["perm"], job["n"]
         X = np.arange(n).reshape(-1, 1)
